@@ -359,6 +359,102 @@ func c05SubscribeVsClose() vs.Verdict {
 	return f.verdict(subRes)
 }
 
+// c05StreamableClient: the real streamable HTTP client (standalone SSE stream attached) against
+// the real stateful handler, in process.  A tool call is in flight (its handler parked on a gate the
+// controller opens when everything else has come to rest) when the client, the server, or both
+// close the session.  Close and both Waits return, the handler's table and the server forget the
+// session, and nothing is left running - under every schedule within the budget.
+func c05StreamableClient() vs.Verdict {
+	f := &e1Fail{prefix: "c05b streamable-client"}
+	ctx := context.Background()
+	closers := []string{"client", "server", "both"}
+	closer := closers[vs.Choose("closer", 3, 0)]
+	ctl := vs.NewController()
+	gate := ctl.Gate("tool")
+	vs.Quiet(true)
+	s := NewServer(&Implementation{Name: "srv", Version: "1"}, &ServerOptions{Logger: quietLogger})
+	AddTool(s, &Tool{Name: "t"}, func(ctx context.Context, r *CallToolRequest, in map[string]any) (*CallToolResult, any, error) {
+		vs.Event("start tool")
+		gate.Wait()
+		vs.Event("finish tool")
+		return &CallToolResult{}, nil, nil
+	})
+	h := NewStreamableHTTPHandler(func(*http.Request) *Server { return s }, &StreamableHTTPOptions{Logger: quietLogger})
+	hx := &hxTransport{Handler: h}
+	c := NewClient(&Implementation{Name: "cli", Version: "1"}, &ClientOptions{Logger: quietLogger})
+	cs, err := c.Connect(ctx, &StreamableClientTransport{Endpoint: "http://srv.test/mcp", HTTPClient: hx.client(), MaxRetries: -1}, &ClientSessionOptions{ProtocolVersion: "2025-06-18"})
+	if err != nil {
+		return vs.Verdict{Bad: "client connect: " + err.Error(), Sig: "c05b connect-failed"}
+	}
+	vs.WaitIdle() // the standalone stream is attached
+	var ss *ServerSession
+	for x := range s.Sessions() {
+		ss = x
+	}
+	if ss == nil {
+		return vs.Verdict{Bad: "no server session", Sig: "c05b connect-failed"}
+	}
+	vs.Quiet(false)
+	done := make(chan string, 8)
+	n := 3
+	vs.Go(c05Call(ctx, cs, done))
+	vs.Go(func() { ss.Wait(); done <- "swait" })
+	vs.Go(func() { cs.Wait(); done <- "cwait" })
+	if closer == "client" || closer == "both" {
+		n++
+		vs.Go(func() {
+			vs.Point()
+			cs.Close()
+			done <- "cclose"
+		})
+	}
+	if closer == "server" || closer == "both" {
+		n++
+		vs.Go(func() {
+			vs.Point()
+			ss.Close()
+			if closer == "server" {
+				// the client learns about it from its next exchange at the latest
+				cs.Close()
+			}
+			done <- "sclose"
+		})
+	}
+	callRes := ""
+	for i := 0; i < n; i++ {
+		if r := <-done; strings.HasPrefix(r, "call:") {
+			callRes = r
+		}
+	}
+	cs.Close()
+	ss.Close()
+	ctl.Stop()
+	vs.Quiet(true)
+	time.Sleep(10 * time.Second) // longer than the bounded waits of a teardown (the DELETE has 5s)
+	vs.WaitIdle()
+	vs.Quiet(false)
+	if left := slices.Collect(s.Sessions()); len(left) != 0 {
+		f.failf("server-session-not-removed", "after shutdown the server still lists %d session(s)", len(left))
+	}
+	h.mu.Lock()
+	nt := len(h.sessions)
+	h.mu.Unlock()
+	if nt != 0 {
+		f.failf("handler-table-not-emptied", "after shutdown the HTTP handler still holds %d session(s)", nt)
+	}
+	c.mu.Lock()
+	nc := len(c.sessions)
+	c.mu.Unlock()
+	if nc != 0 {
+		f.failf("client-session-not-removed", "after shutdown the client still tracks %d session(s)", nc)
+	}
+	evs := vs.Events()
+	if st, fin := evIndex(evs, "start tool"), evIndex(evs, "finish tool"); st >= 0 && fin < 0 {
+		f.failf("handler-abandoned", "the tool handler started but never finished: %s", evJoin(evs))
+	}
+	return f.verdict(fmt.Sprintf("closer=%s %s", closer, callRes))
+}
+
 // c05StreamableClose: a streamable HTTP session is closed (DELETE or ServerSession.Close) while a
 // POST carrying more calls than the session's incoming queue holds is being handed to it.  Every
 // HTTP exchange must end, Close must return, and nothing may be left running.
@@ -481,6 +577,7 @@ func TestVerifC05(t *testing.T) {
 		vs.E1(t, "b/sessions-server-writes-fail", b, vs.Options{}, func() vs.Verdict { return c05Sessions("server") }),
 		vs.E1(t, "b/nested-request-in-flight", env.Pick(1, 2), vs.Options{}, func() vs.Verdict { return c05Nested() }),
 		vs.E1(t, "b/subscribe-vs-close/2026-07-28", env.Pick(2, 3), vs.Options{}, func() vs.Verdict { return c05SubscribeVsClose() }),
+		vs.E1(t, "b/streamable-client-close-vs-call", env.Pick(1, 2), vs.Options{}, func() vs.Verdict { return c05StreamableClient() }),
 		vs.E1(t, "b/streamable-close-vs-posts", env.Pick(1, 2), vs.Options{}, func() vs.Verdict { return c05StreamableClose() }),
 	}
 	env.Run(scs)
